@@ -460,6 +460,15 @@ func TestC02(t *testing.T) {
 		sweepParts = 4
 		sweepPart = int(rec.Seed() % 4)
 	}
+	// own deadline: leave a minute of the go-test timeout for reporting, so that a
+	// defect that makes many calls slow is still reported as what was found so far
+	budgetEnd := time.Now().Add(24 * time.Hour)
+	if dl, ok := t.Deadline(); ok {
+		budgetEnd = dl.Add(-75 * time.Second)
+	}
+	outOfTime := false
+	sweepViolKeys := map[string]bool{}
+sweep:
 	for ei, e := range c02Entries {
 		if e.Hidden || ei%sweepParts != sweepPart {
 			continue
@@ -493,7 +502,16 @@ func TestC02(t *testing.T) {
 					t.Fatalf("harness: %s", vd.What)
 				}
 				if vd.Key != "" {
-					rec.Violation(vd.Key, vd.What+" (input: "+hc.Name+")", caseOf(ei, v, in, vd))
+					if !rec.Violation(vd.Key, vd.What+" (input: "+hc.Name+")", caseOf(ei, v, in, vd)) {
+						sweepViolKeys[vd.Key] = true
+					}
+				}
+				if len(sweepViolKeys) >= 8 {
+					break sweep // enough to report; every further crash costs two worker restarts
+				}
+				if time.Now().After(budgetEnd) {
+					outOfTime = true
+					break sweep
 				}
 			}
 		}
@@ -504,6 +522,18 @@ func TestC02(t *testing.T) {
 	rec.SetExtra("sweep_judge_ms", sweepJudge.Milliseconds())
 	rec.SetExtra("n_sweep_calls_big_input", sweepBig)
 	rec.SetExtra("sweep_big_input_ms", sweepBigDur.Milliseconds())
+	if len(sweepViolKeys) >= 8 {
+		rec.SetExtra("stopped_after_sweep", "8 distinct violation classes in the deterministic sweep")
+		return
+	}
+	if outOfTime {
+		rec.SetExtra("stopped_after_sweep", "time budget exhausted during the sweep")
+		if len(sweepViolKeys) == 0 {
+			fmt.Printf("HARNESS-ERROR property=C02 time budget exhausted during the deterministic sweep without a violation\n")
+			t.Fatalf("time budget exhausted")
+		}
+		return
+	}
 	// ---- generated inputs ----
 	uniformMax := rec.Pick(4096, c02MaxInput)
 	visible := make([]int, 0, len(c02Entries))
@@ -513,6 +543,10 @@ func TestC02(t *testing.T) {
 		}
 	}
 	rec.Check(func(rt *rapid.T) {
+		if time.Now().After(budgetEnd) {
+			outOfTime = true
+			rt.Skip("time budget exhausted")
+		}
 		ei := visible[rapid.IntRange(0, len(visible)-1).Draw(rt, "entry")]
 		e := c02Entries[ei]
 		v := rapid.IntRange(0, e.Variants-1).Draw(rt, "variant")
@@ -537,6 +571,10 @@ func TestC02(t *testing.T) {
 		}
 	})
 
+	if outOfTime && !t.Failed() {
+		fmt.Printf("HARNESS-ERROR property=C02 time budget exhausted before all generated cases ran\n")
+		t.Errorf("time budget exhausted")
+	}
 	rec.SetExtra("n_entry_points", len(visible))
 	nVar := 0
 	for _, i := range visible {
